@@ -153,6 +153,14 @@ def base_related(T, V):
 
 def o_cast(T, V, ref):
     """set of verdicts the property allows for converting a V into T; None = the property is silent"""
+    if ref:
+        # a reference is only ever re-labelled, never converted: admissible exactly for equivalent types and between a
+        # definition and its own base AT THE TOP of the type (a definition nested in a list type is opaque like any other)
+        if base_related(T, V):
+            return {True}
+        if o_equal(T, V):
+            return {True, False}
+        return {False}
     if not (top_def(T) or top_def(V)) or o_any(T) or o_any(V) or o_void(V):
         return None
     if base_related(T, V):
@@ -603,6 +611,10 @@ def leg_frontend(ck, fnd, typex, pop, res, pairs, codes):
                 continue
             for p in where:
                 verdict.setdefault(p, True)
+            if verdict.get("refcast") and not verdict["cast"] and not o_equal(T, V):   # the positions must agree: a re-labelled reference is a converted value
+                fnd.add("law=refcast-implies-cast required=%s supplied=%s" % (shape(T), shape(V)),
+                        "`x als %s` is accepted for a reference of type %s but refused for a value of the same type" % (spec(T), spec(V)),
+                        dict(types=[spec(T), spec(V)], law="refcast-implies-cast", program=src), size(T) + size(V))
             if verdict["init"] != verdict["assign"]:     # the two positions always agree (law on the implementation itself)
                 fnd.add("law=init-assign-agree init=%s assign=%s required=%s supplied=%s" % (verdict["init"], verdict["assign"], shape(T), shape(V)),
                         "initialising a %s with a %s is %s but assigning it is %s" % (spec(T), spec(V), "accepted" if verdict["init"] else "rejected", "accepted" if verdict["assign"] else "rejected"),
